@@ -302,6 +302,147 @@ theorem gen_LocalDate_compareTo_eq (a b : LDate) (ha : OrdWF a) (hb : OrdWF b) :
   rw [gen_LocalDate_trustedCompareTo_eq]; exact guarded a b ha hb _
 theorem gen_LocalDate_compareToNone_eq (cmp : YMD → YMD → Int) (a : LDate) : Gen.C12.LocalDate.compareToNone cmp a = 1 := rfl
 
+theorem gen_LocalDate_hash_eq (a : LDate) : Gen.C12.LocalDate.hash a = Compare.LocalDate.hashRaw (toM a) := rfl
+
+/-- the date's calendar: the one object `CalendarSystem._for_ordinal` keeps for the ordinal -/
+theorem gen_LocalDate_calendar_eq (a : LDate) (h : OrdWF a) :
+    Gen.C12.LocalDate.calendar a = .ok ⟨(toM a).ordinal⟩ := by
+  unfold Gen.C12.LocalDate.calendar
+  rw [gen_LocalDate_calendarOrdinal_eq a h]; rfl
+
+/-! ## LocalDateTime -/
+
+/-- a generated `LocalDateTime` as the model's -/
+def toMdt (a : LDT) : Compare.LocalDateTime := ⟨toM a.date, a.time⟩
+
+theorem gen_LocalDateTime_calendar_eq (a : LDT) (h : OrdWF a.date) :
+    Gen.C12.LocalDateTime.calendar a = .ok ⟨(toMdt a).date.ordinal⟩ := gen_LocalDate_calendar_eq a.date h
+
+theorem gen_LocalDateTime_beq_eq (a b : LDT) : Gen.C12.LocalDateTime.beq a b = Compare.LocalDateTime.eq (toMdt a) (toMdt b) := by
+  unfold Gen.C12.LocalDateTime.beq Compare.LocalDateTime.eq toMdt
+  rw [gen_LocalDate_beq_eq, gen_LocalTime_beq_eq]
+  cases Compare.LocalDate.eq (toM a.date) (toM b.date) <;> cases Compare.LocalTime.eq a.time b.time <;> rfl
+theorem gen_LocalDateTime_bne_eq (a b : LDT) : Gen.C12.LocalDateTime.bne a b = Compare.LocalDateTime.ne (toMdt a) (toMdt b) := by
+  unfold Gen.C12.LocalDateTime.bne Compare.LocalDateTime.ne
+  rw [gen_LocalDateTime_beq_eq]
+  cases Compare.LocalDateTime.eq (toMdt a) (toMdt b) <;> rfl
+theorem gen_LocalDateTime_equals_eq (a b : LDT) : Gen.C12.LocalDateTime.equals a b = Compare.LocalDateTime.eq (toMdt a) (toMdt b) :=
+  gen_LocalDateTime_beq_eq a b
+
+/-- `compare_to`: the date comparison (with its calendar guard), then the time of day -/
+theorem gen_LocalDateTime_compareTo_eq (a b : LDT) (ha : OrdWF a.date) (hb : OrdWF b.date) :
+    Gen.C12.LocalDateTime.compareTo (cmpOf (toMdt a).date.ordinal) a b = Compare.LocalDateTime.compareTo (toMdt a) (toMdt b) := by
+  unfold Gen.C12.LocalDateTime.compareTo Compare.LocalDateTime.compareTo
+  simp only [toMdt]
+  rw [gen_LocalDate_compareTo_eq a.date b.date ha hb]
+  cases Compare.LocalDate.compareTo (toM a.date) (toM b.date) with
+  | error e => rfl
+  | ok c =>
+    show (if c ≠ 0 then (.ok c : R Int) else .ok (Gen.C12.LocalTime.compareTo a.time b.time)) = (if c ≠ 0 then .ok c else Compare.LocalTime.compareTo a.time b.time)
+    rw [gen_LocalTime_compareTo_eq]
+theorem gen_LocalDateTime_compareToNone_eq (cmp : YMD → YMD → Int) (a : LDT) : Gen.C12.LocalDateTime.compareToNone cmp a = 1 := rfl
+
+/-- the four ordering operators: `self.calendar == other.calendar` is the identity of the two calendar objects, i.e.
+    equality of the ordinals; then `compare_to` -/
+theorem guardedDt (a b : LDT) (ha : OrdWF a.date) (hb : OrdWF b.date) (f : Int → Bool) :
+    (do let t1 ← Gen.C12.LocalDateTime.calendar a
+        let t2 ← Gen.C12.LocalDateTime.calendar b
+        Gen.checkArgument (decide (t1 = t2))
+        let t3 ← Gen.C12.LocalDateTime.compareTo (cmpOf (toMdt a).date.ordinal) a b
+        (.ok (f t3) : R Bool)) = Compare.LocalDateTime.withGuard (toMdt a) (toMdt b) f := by
+  rw [gen_LocalDateTime_calendar_eq a ha, gen_LocalDateTime_calendar_eq b hb, gen_LocalDateTime_compareTo_eq a b ha hb]
+  unfold Compare.LocalDateTime.withGuard Gen.checkArgument
+  by_cases h : (toMdt a).date.ordinal = (toMdt b).date.ordinal
+  · have h' : (⟨(toMdt a).date.ordinal⟩ : CalRef) = ⟨(toMdt b).date.ordinal⟩ := by rw [h]
+    simp only [bind, Except.bind, h, decide_true, if_true]
+    cases Compare.LocalDateTime.compareTo (toMdt a) (toMdt b) <;> rfl
+  · have h' : ¬ (⟨(toMdt a).date.ordinal⟩ : CalRef) = ⟨(toMdt b).date.ordinal⟩ := fun e => h (CalRef.mk.inj e)
+    simp [bind, Except.bind, h', h]
+
+theorem gen_LocalDateTime_lt_eq (a b : LDT) (ha : OrdWF a.date) (hb : OrdWF b.date) :
+    Gen.C12.LocalDateTime.lt (cmpOf (toMdt a).date.ordinal) a b = Compare.LocalDateTime.lt (toMdt a) (toMdt b) :=
+  guardedDt a b ha hb (fun c => decide (c < 0))
+theorem gen_LocalDateTime_le_eq (a b : LDT) (ha : OrdWF a.date) (hb : OrdWF b.date) :
+    Gen.C12.LocalDateTime.le (cmpOf (toMdt a).date.ordinal) a b = Compare.LocalDateTime.le (toMdt a) (toMdt b) :=
+  guardedDt a b ha hb (fun c => decide (c ≤ 0))
+theorem gen_LocalDateTime_gt_eq (a b : LDT) (ha : OrdWF a.date) (hb : OrdWF b.date) :
+    Gen.C12.LocalDateTime.gt (cmpOf (toMdt a).date.ordinal) a b = Compare.LocalDateTime.gt (toMdt a) (toMdt b) :=
+  guardedDt a b ha hb (fun c => decide (c > 0))
+theorem gen_LocalDateTime_ge_eq (a b : LDT) (ha : OrdWF a.date) (hb : OrdWF b.date) :
+    Gen.C12.LocalDateTime.ge (cmpOf (toMdt a).date.ordinal) a b = Compare.LocalDateTime.ge (toMdt a) (toMdt b) :=
+  guardedDt a b ha hb (fun c => decide (c ≥ 0))
+
+/-! ## YearMonth: the same members on the packed first day of the month -/
+
+def toMym (a : YM) : Compare.YearMonth := ⟨a.som.value⟩
+def OrdWFym (a : YM) : Prop := ymdcOrdinal a.som.value ≤ 19
+
+theorem gen_YearMonth_calendarOrdinal_eq (a : YM) (h : OrdWFym a) :
+    Gen.C12.YearMonth.calendarOrdinal a = .ok (toMym a).ordinal := gen_YMDC_calendarOrdinal_eq a.som h
+theorem gen_YearMonth_yearMonthDay_eq (a : YM) : (Gen.C12.YearMonth.yearMonthDay a).value = (toMym a).ymd :=
+  gen_YMDC_toYearMonthDay_eq a.som
+theorem gen_YearMonth_trustedCompareTo_eq (a b : YM) :
+    Gen.C12.YearMonth.trustedCompareTo (cmpOf (toMym a).ordinal) a b = Compare.YearMonth.trustedCompareTo (toMym a) (toMym b) := by
+  unfold Gen.C12.YearMonth.trustedCompareTo cmpOf Compare.YearMonth.trustedCompareTo
+  rw [gen_YearMonth_yearMonthDay_eq, gen_YearMonth_yearMonthDay_eq]
+theorem gen_YearMonth_beq_eq (a b : YM) : Gen.C12.YearMonth.beq a b = Compare.YearMonth.eq (toMym a) (toMym b) := rfl
+theorem gen_YearMonth_bne_eq (a b : YM) : Gen.C12.YearMonth.bne a b = Compare.YearMonth.ne (toMym a) (toMym b) := by
+  unfold Gen.C12.YearMonth.bne Compare.YearMonth.ne
+  rw [gen_YearMonth_beq_eq]
+  cases Compare.YearMonth.eq (toMym a) (toMym b) <;> rfl
+theorem gen_YearMonth_equals_eq (a b : YM) : Gen.C12.YearMonth.equals a b = Compare.YearMonth.eq (toMym a) (toMym b) := rfl
+theorem gen_YearMonth_hash_eq (a : YM) : Gen.C12.YearMonth.hash a = Compare.YearMonth.hashRaw (toMym a) := rfl
+
+theorem guardedYM {α} (a b : YM) (ha : OrdWFym a) (hb : OrdWFym b) (v : α) :
+    (do let t1 ← Gen.C12.YearMonth.calendarOrdinal a
+        let t2 ← Gen.C12.YearMonth.calendarOrdinal b
+        Gen.checkArgument (decide (t1 = t2))
+        (.ok v : R α)) = sameCal (toMym a).ordinal (toMym b).ordinal v := by
+  rw [gen_YearMonth_calendarOrdinal_eq a ha, gen_YearMonth_calendarOrdinal_eq b hb]
+  unfold sameCal Gen.checkArgument
+  by_cases h : (toMym a).ordinal = (toMym b).ordinal <;> simp [h, bind, Except.bind]
+
+theorem gen_YearMonth_lt_eq (a b : YM) (ha : OrdWFym a) (hb : OrdWFym b) :
+    Gen.C12.YearMonth.lt (cmpOf (toMym a).ordinal) a b = Compare.YearMonth.lt (toMym a) (toMym b) := by
+  unfold Gen.C12.YearMonth.lt Compare.YearMonth.lt
+  rw [gen_YearMonth_trustedCompareTo_eq]; exact guardedYM a b ha hb _
+theorem gen_YearMonth_le_eq (a b : YM) (ha : OrdWFym a) (hb : OrdWFym b) :
+    Gen.C12.YearMonth.le (cmpOf (toMym a).ordinal) a b = Compare.YearMonth.le (toMym a) (toMym b) := by
+  unfold Gen.C12.YearMonth.le Compare.YearMonth.le
+  rw [gen_YearMonth_trustedCompareTo_eq]; exact guardedYM a b ha hb _
+theorem gen_YearMonth_gt_eq (a b : YM) (ha : OrdWFym a) (hb : OrdWFym b) :
+    Gen.C12.YearMonth.gt (cmpOf (toMym a).ordinal) a b = Compare.YearMonth.gt (toMym a) (toMym b) := by
+  unfold Gen.C12.YearMonth.gt Compare.YearMonth.gt
+  rw [gen_YearMonth_trustedCompareTo_eq]; exact guardedYM a b ha hb _
+theorem gen_YearMonth_ge_eq (a b : YM) (ha : OrdWFym a) (hb : OrdWFym b) :
+    Gen.C12.YearMonth.ge (cmpOf (toMym a).ordinal) a b = Compare.YearMonth.ge (toMym a) (toMym b) := by
+  unfold Gen.C12.YearMonth.ge Compare.YearMonth.ge
+  rw [gen_YearMonth_trustedCompareTo_eq]; exact guardedYM a b ha hb _
+theorem gen_YearMonth_compareTo_eq (a b : YM) (ha : OrdWFym a) (hb : OrdWFym b) :
+    Gen.C12.YearMonth.compareTo (cmpOf (toMym a).ordinal) a b = Compare.YearMonth.compareTo (toMym a) (toMym b) := by
+  unfold Gen.C12.YearMonth.compareTo Compare.YearMonth.compareTo
+  rw [gen_YearMonth_trustedCompareTo_eq]; exact guardedYM a b ha hb _
+theorem gen_YearMonth_compareToNone_eq (cmp : YMD → YMD → Int) (a : YM) : Gen.C12.YearMonth.compareToNone cmp a = 1 := rfl
+
+/-! ## AnnualDate: a `_YearMonthDay` in year 1, compared as that packed integer -/
+
+def toMad (a : ADate) : Compare.AnnualDate := ⟨a.value.value⟩
+
+theorem gen_AnnualDate_beq_eq (a b : ADate) : Gen.C12.AnnualDate.beq a b = Compare.AnnualDate.eq (toMad a) (toMad b) := rfl
+theorem gen_AnnualDate_bne_eq (a b : ADate) : Gen.C12.AnnualDate.bne a b = Compare.AnnualDate.ne (toMad a) (toMad b) := by
+  unfold Gen.C12.AnnualDate.bne Compare.AnnualDate.ne
+  rw [gen_AnnualDate_beq_eq]
+  cases Compare.AnnualDate.eq (toMad a) (toMad b) <;> rfl
+theorem gen_AnnualDate_equals_eq (a b : ADate) : Gen.C12.AnnualDate.equals a b = Compare.AnnualDate.eq (toMad a) (toMad b) := rfl
+theorem gen_AnnualDate_hash_eq (a : ADate) : Gen.C12.AnnualDate.hash a = Compare.AnnualDate.hashRaw (toMad a) := rfl
+theorem gen_AnnualDate_compareTo_eq (a b : ADate) : .ok (Gen.C12.AnnualDate.compareTo a b) = Compare.AnnualDate.compareTo (toMad a) (toMad b) := rfl
+theorem gen_AnnualDate_compareToNone_eq (a : ADate) : Gen.C12.AnnualDate.compareToNone a = 1 := rfl
+theorem gen_AnnualDate_lt_eq (a b : ADate) : .ok (Gen.C12.AnnualDate.lt a b) = Compare.AnnualDate.lt (toMad a) (toMad b) := rfl
+theorem gen_AnnualDate_le_eq (a b : ADate) : .ok (Gen.C12.AnnualDate.le a b) = Compare.AnnualDate.le (toMad a) (toMad b) := rfl
+theorem gen_AnnualDate_gt_eq (a b : ADate) : .ok (Gen.C12.AnnualDate.gt a b) = Compare.AnnualDate.gt (toMad a) (toMad b) := rfl
+theorem gen_AnnualDate_ge_eq (a b : ADate) : .ok (Gen.C12.AnnualDate.ge a b) = Compare.AnnualDate.ge (toMad a) (toMad b) := rfl
+
+example : OrdWFym ⟨⟨packYMDC 5 5784 7 1⟩⟩ := by unfold OrdWFym; decide
 example : OrdWF ⟨⟨packYMDC 5 5784 7 15⟩⟩ := by unfold OrdWF; decide
 example : FieldsOK 13 30 ∧ OrdOK 18 := by unfold FieldsOK OrdOK; decide
 
